@@ -96,6 +96,10 @@ impl Property for C03 {
         if g.known_sigs.iter().any(|s| s.ends_with(&format!("@{key}"))) {
             return None;
         }
+        // cells without any comment are outside the property's domain
+        if !cell.src.text.contains("//") && !cell.src.text.contains("/*") {
+            return None;
+        }
         Some(cell_case(&cell))
     }
     fn generate(&self, c: &mut Choices<'_>, _g: &GenCtx) -> Value {
